@@ -63,6 +63,14 @@ Proof.
 Qed.
 Print Assumptions C01_refuted.
 
+(* One height at a time is no restriction: an instance refuses every message of another height and is
+   left untouched by it, so the executions of different heights are independent. *)
+Theorem C01_other_heights_are_refused : forall c s m,
+  can_process s = true -> c_height (co m) <> s_height s -> c_type (co m) <= T_ROUNDCHANGE ->
+  process_msg c s m = (s, [], PErr).
+Proof. exact other_height_refused. Qed.
+Print Assumptions C01_other_heights_are_refused.
+
 (* Non-vacuity of the theorem: the first part of the same execution is rewind-free and contains a
    reported decision. *)
 Definition no_rewindb (c0 : cfg) (g : sys) (l : label) : bool :=
